@@ -145,13 +145,13 @@ func (t *HHWheelTimer) RunAfter(timeUnits int, r Runnable) int {
 	}
 
 	t.guard.Lock()
-	defer t.guard.Unlock()
-
 	var id = t.nextID()
 	var node = newWheelTimerNode(id, int64(timeUnits), 0, r)
-	t.pendingAdd <- node
 	t.refer[id] = node
+	t.guard.Unlock()
 
+	// send without holding the mutex: the worker needs it to expire timers
+	t.pendingAdd <- node
 	return id
 }
 
@@ -162,26 +162,29 @@ func (t *HHWheelTimer) RunEvery(interval int, r Runnable) int {
 	}
 
 	t.guard.Lock()
-	defer t.guard.Unlock()
-
 	var id = t.nextID()
 	var node = newWheelTimerNode(id, 0, int64(interval), r)
-	t.pendingAdd <- node
 	t.refer[id] = node
+	t.guard.Unlock()
 
+	// send without holding the mutex: the worker needs it to expire timers
+	t.pendingAdd <- node
 	return id
 }
 
 func (t *HHWheelTimer) Cancel(id int) bool {
 	t.guard.Lock()
-	defer t.guard.Unlock()
-
-	if node, found := t.refer[id]; found {
-		t.pendingDel <- node
+	var node, found = t.refer[id]
+	if found {
 		delete(t.refer, id)
-		return true
 	}
-	return false
+	t.guard.Unlock()
+
+	if found {
+		// send without holding the mutex: the worker needs it to expire timers
+		t.pendingDel <- node
+	}
+	return found
 }
 
 // 当前时间
